@@ -14,6 +14,8 @@ def error_oracle(case, obs):
     if case.get('ref_status') != 'error' or obs is None or 'res' not in obs:
         return None
     it = case['ref']
+    if obs['res'] == 'limit':
+        return None          # the harness stopped the run at its instruction limit before the failing statement: undecided
     if obs['res'] != 'runtime_error' or obs['st'] != 'halted_error':
         return {'field': 'res', 'expected': 'runtime_error/halted_error', 'implementation': '%s/%s' % (obs['res'], obs['st'])}
     if obs['err'] == '' or not obs['err'].endswith('60001'):
